@@ -14,6 +14,8 @@ import (
 	"strings"
 	"time"
 
+	"go.linecorp.com/garr/vshim/vtime"
+
 	cb "go.linecorp.com/garr/circuit-breaker"
 	"go.linecorp.com/garr/vshim/vdrv"
 	"go.linecorp.com/garr/vshim/vsched"
@@ -166,7 +168,16 @@ func newInst(s *vdrv.Scenario) vdrv.Instance {
 		in.tk.reads = nil // constructor readings do not belong to any controlled thread
 		return in
 	}
-	b := cb.NewCircuitBreakerBuilder().SetTicker(in.tk).SetFailureRateThreshold(c.thr).SetMinimumRequestThreshold(c.minreq).
+	b := cb.NewCircuitBreakerBuilder()
+	vtime.NowHook = nil
+	if s.OptInt("systk", 0) == 1 {
+		// the builder's default ticker (the package's SystemTicker) on the scripted clock
+		tk := in.tk
+		vtime.NowHook = func() time.Time { return time.Unix(0, tk.Tick()) }
+	} else {
+		b.SetTicker(in.tk)
+	}
+	b.SetFailureRateThreshold(c.thr).SetMinimumRequestThreshold(c.minreq).
 		SetTrialRequestInterval(time.Duration(c.trial)).SetCircuitOpenWindow(time.Duration(c.openw)).
 		SetCounterSlidingWindow(time.Duration(c.window)).SetCounterUpdateInterval(time.Duration(c.interval))
 	lerr := s.OptInt("lerr", 0)
